@@ -116,11 +116,15 @@ fn handler(world: &Arc<Mutex<World>>) -> Handler {
 fn build(rules: &[Rule], world: &Arc<Mutex<World>>) -> Result<RuleSet, String> {
     let h = handler(world);
     let mut b = ruleset();
-    for r in rules {
-        b = b.with_rule(r.clone()).map_err(|e| format!("with_rule: {e}"))?;
+    // the first rule is added alone, the rest as one batch: both entry points, order must hold
+    if let Some(first) = rules.first() {
+        b = b.with_rule(first.clone()).map_err(|e| format!("with_rule: {e}"))?;
+        b = b.with_rules(rules[1..].to_vec()).map_err(|e| format!("with_rules: {e}"))?;
     }
     b = b.with_function(probe("c", true, &h)).map_err(|e| format!("{e}"))?;
-    b = b.with_function(probe("n", false, &h)).map_err(|e| format!("{e}"))?;
+    b = b
+        .with_functions(vec![Box::new(probe("n", false, &h)) as Box<dyn UserFunction + Send + Sync + 'static>])
+        .map_err(|e| format!("{e}"))?;
     for (k, v) in symbols() {
         b = b.with_symbol(k, v.to_value());
     }
